@@ -509,6 +509,23 @@ def rule_guarded_continue(text, ctx):
         text = text[:ifs] + new + text[rest_e:]
 
 
+def rule_sort_pairs(text, ctx):
+    """R19: `V.sort_by(|(c1, _), (c2, _)| c1.cmp(c2));` -> `verif_sort_pairs(&mut V);` (external_body wrapper, body = original call)"""
+    def f(m):
+        new = 'verif_sort_pairs(&mut %s);' % m.group(1)
+        ctx.note('R19', m.group(0), new)
+        return new
+    return re.sub(r'(\w+)\.sort_by\(\|\(c1, _\), \(c2, _\)\| c1\.cmp\(c2\)\);', f, text)
+
+
+def rule_vec_ref_iter(text, ctx):
+    """R20: `for PAT in &V {` (V a local Vec identifier) -> `for PAT in V.iter() {`  (IntoIterator for &Vec is iter())"""
+    def f(m):
+        ctx.note('R20', m.group(0), 'in %s.iter() {' % m.group(1))
+        return 'in %s.iter() {' % m.group(1)
+    return re.sub(r'in &(mapped|chars) \{', f, text)
+
+
 def rule_fold(text, ctx):
     """R14: `S\n.iter()\n.fold(INIT, |acc, c| BODY)` -> block with a for loop."""
     m = re.search(r'(\w+)\s*\.iter\(\)\s*\.fold\((\w+), \|(\w+), (\w+)\| ([^)]*\))\)', text)
@@ -632,6 +649,10 @@ def apply_fn(text, spec, ctx, assoc_types=None, canary=False):
         text = rule_enumerate(text, ctx)
     if 'R18' in spec.rules:
         text = rule_guarded_continue(text, ctx)
+    if 'R19' in spec.rules:
+        text = rule_sort_pairs(text, ctx)
+    if 'R20' in spec.rules:
+        text = rule_vec_ref_iter(text, ctx)
     text = rule_get_unchecked(text, ctx)
     text = rule_debug_assert(text, ctx)
     if 'R8c' in spec.rules:
